@@ -22,6 +22,8 @@ R = _R(Lcg(1))
 EXTREME = 0.0
 # probability of a huge signed coefficient integer part (C01: parse/write asymmetry of se(v) above 2^53)
 BIG_SE = 0.0
+# probability that a container carries one block of a level that does not exist (the parser must reject the RPU)
+UNKNOWN_LEVEL = 0.0
 
 
 def seed(lcg):
@@ -126,9 +128,17 @@ def gen_block(level, w, js):
     return name, dict(fl), ln, bits
 
 def gen_container(w, levels):
-    w.ue(len(levels)); w.align()
+    unk = None
+    if UNKNOWN_LEVEL and R.random() < UNKNOWN_LEVEL:
+        unk = (R.randint(0, len(levels)), pick(0, 7, 12, 13, 100, 253), pick(0, 1, 4, 11))
+    w.ue(len(levels) + (1 if unk else 0)); w.align()
     out=[]
-    for lv in levels:
+    for k, lv in enumerate(list(levels) + [None]):
+        if unk and unk[0] == k:
+            w.ue(unk[2]); w.u(8, unk[1])
+            for _ in range(unk[2] * 8): w.b.append(0)
+        if lv is None:
+            break
         # need length before payload: generate into temp writer
         t=BW(); name,fields,ln,bits=gen_block(lv,t,None)
         w.ue(ln); w.u(8,lv); w.b+=t.b
